@@ -739,3 +739,183 @@ def rule_search_flag_reset(ctx, dirs=None, floor=8):
                         ctx.violated("SEARCHFLAG", key, f.where(node_line(kid)), "the inner search sets `%s` on a match and the outer loop tests it afterwards, but no pass of the outer loop gives `%s` its start value: after the first match every later item counts as found" % (v, v))
     ctx.floor("SEARCHFLAG", floor, n, "(nested searches with a found-flag tested behind the inner loop)")
     return n
+
+
+# ---------------------------------------------------------------------------------------------------------------------
+FILE_UNIT_FIELDS = {"isize", "ivsize", "off"}
+USER_UNIT_FIELDS = {"esize"}
+
+
+def rule_buffer_units(ctx, funcs=("VSread", "VSwrite")):
+    """UNITS (C07): VSread/VSwrite move records between two buffers measured in different units: the caller's buffer holds machine
+    values (field size `esize`), the transfer buffer holds file values (field size `isize`, record size `ivsize`, field offset
+    `off`).  The two sizes differ whenever a field's machine type is wider than its file type.  Every advance of a pointer into
+    the caller's buffer must therefore be computed from machine sizes only, and every advance of a pointer into the transfer
+    buffer from file sizes only; an advance in the other buffer's unit walks off the records as soon as the sizes differ.
+    (Provenance is flow-insensitive over the routine's locals; a local that receives both units is 'mixed' and decides nothing.)"""
+    prog = ctx.prog
+    n = 0
+    for fn in funcs:
+        f = prog.func(fn)
+        if f is None:
+            ctx.unrecognised("UNITS", "UNITS:%s" % fn, "-", "%s not found" % fn)
+            continue
+        params = [q[0] for q in f.params]
+        user_roots = {q[0] for q in f.params if "*" in (q[1] if len(q) > 1 else "") and q[0] not in ("fields",)}
+        file_roots = {"Vtbuf"}
+        asg = []
+        for _b, _i, s, x in f.nodes(True):
+            if x[0] == "asg" and kind(strip(x[2])) == "var":
+                asg.append((strip(x[2])[1], x[1], x[3], s.get("l", f.line)))
+            elif x[0] == "decl":
+                for d in x[1]:
+                    if d[2] is not None:
+                        asg.append((d[0], "=", d[2], s.get("l", f.line)))
+
+        def units_of(e, prov):
+            """unit provenance with one piece of dimension algebra: bytes / record-size is a count"""
+            e = strip(e)
+            k = kind(e)
+            if k == "var":
+                return set(prov.get(e[1], ()))
+            if k == "mem":
+                if e[2] in FILE_UNIT_FIELDS:
+                    return {"file"}
+                if e[2] in USER_UNIT_FIELDS:
+                    return {"user"}
+                return set()
+            if k == "idx":
+                return units_of(e[1], prov)
+            if k == "bin":
+                if e[1] == "/":
+                    return set() if units_of(e[3], prov) else units_of(e[2], prov)
+                if e[1] in ("+", "-", "*"):
+                    return units_of(e[2], prov) | units_of(e[3], prov)
+                return set()
+            if k == "call":
+                u = set()
+                for a in e[3]:
+                    u |= units_of(a, prov)
+                return u
+            if k == "cond":
+                u = set()
+                for a in e[1:]:
+                    if isinstance(a, list):
+                        u |= units_of(a, prov) if kind(a) else set()
+                return u
+            if k == "asg":
+                return units_of(e[3], prov)
+            return set()
+
+        # fixpoint: unit provenance of integer locals, root buffer of pointer locals
+        prov, root = {}, {}
+        for v in user_roots:
+            root[v] = {"user"}
+        for v in file_roots:
+            root[v] = {"file"}
+        for _ in range(6):
+            for v, op, rhs, _l in asg:
+                b = base_var(rhs) if kind(strip(rhs)) in ("var", "bin", "cast", "idx", "addr") else None
+                # pointer locals: take the buffer of the pointer operand
+                ptrs = {y[1] for y in walk(rhs, True) if y[0] == "var" and y[1] in root}
+                if ptrs and op == "=":
+                    for p_ in ptrs:
+                        root.setdefault(v, set()).update(root[p_])
+                    continue
+                if v in root:
+                    continue
+                u = units_of(rhs, prov)
+                if u:
+                    prov.setdefault(v, set()).update(u)
+        occ = {}
+        for v, op, rhs, line in asg:
+            if v not in root or len(root[v]) != 1:
+                continue
+            want = next(iter(root[v]))
+            if op == "+=":
+                amount = rhs
+            elif op == "=" and kind(strip(rhs)) == "bin" and strip(rhs)[1] == "+":
+                r = strip(rhs)
+                sides = [r[2], r[3]]
+                ptr_side = [s_ for s_ in sides if any(y[0] == "var" and y[1] in root for y in walk(s_, True))]
+                if len(ptr_side) != 1:
+                    continue
+                amount = sides[1] if ptr_side[0] is sides[0] else sides[0]
+            else:
+                continue
+            u = units_of(amount, prov)
+            if not u:
+                continue  # a pure count or constant
+            n += 1
+            key = "UNITS:%s:%s" % (fn, v)
+            occ[key] = occ.get(key, 0) + 1
+            if occ[key] > 1:
+                key += "#%d" % occ[key]
+            other = "file" if want == "user" else "user"
+            if u == {want}:
+                ctx.holds("UNITS", key, f.where(line), "`%s` (into the %s buffer) advances by `%s`, a %s-unit amount" % (v, "caller's" if want == "user" else "transfer", render(amount)[:50], want), nontrivial=True)
+            elif u == {other}:
+                ctx.violated("UNITS", key, f.where(line), "`%s` points into the %s buffer but is advanced by `%s`, which is computed from %s sizes: the two differ whenever a field's machine size is not its file size" %
+                             (v, "caller's" if want == "user" else "transfer", render(amount)[:60], "file" if other == "file" else "machine"))
+            else:
+                ctx.excepted("UNITS", key, f.where(line), "`%s` mixes both units in this routine (flow-insensitive provenance): not decided" % render(amount)[:50])
+    ctx.floor("UNITS", 10, n, "(pointer advances in VSread/VSwrite with a unit)")
+    return n
+
+
+def _size_name(f, e):
+    """a size operand by what it measures: a local that is only ever loaded from one record field is named by that field, so
+    that `esize` and `(int)w->esize[j]` are the same quantity"""
+    e = strip(e)
+    if kind(e) in ("mem", "idx") and mem_field(e if kind(e) == "mem" else e[1]):
+        return (mem_field(e if kind(e) == "mem" else e[1]))[1]
+    if kind(e) == "var":
+        flds = set()
+        other = False
+        for _b, _i, _s, x in f.nodes(True):
+            if x[0] == "asg" and x[1] == "=" and kind(strip(x[2])) == "var" and strip(x[2])[1] == e[1]:
+                r = strip(x[3])
+                r = r[1] if kind(r) == "idx" else r
+                if mem_field(r):
+                    flds.add(mem_field(r)[1])
+                else:
+                    other = True
+        if len(flds) == 1 and not other:
+            return next(iter(flds))
+    return render(e)
+
+
+def rule_record_skip_siblings(ctx, funcs=("VSread", "VSwrite")):
+    """SKIPSIB (C07): when one side of a Vdata transfer is field-major (NO_INTERLACE) the routines copy one component of a field for
+    all records and then step to the next component: inside the per-record loop the field-major pointer advances by one component,
+    and after the loop it is moved on by `(nelt - 1) * <size of the whole field>` to reach the next component's first record.
+    VSread and VSwrite contain this re-positioning four times, for the same buffer layout; all copies must skip by the same
+    quantity.  A copy that skips by another amount interleaves the components of multi-order fields wrongly."""
+    prog = ctx.prog
+    sites = []
+    for fn in funcs:
+        f = prog.func(fn)
+        if f is None:
+            ctx.unrecognised("SKIPSIB", "SKIPSIB:%s" % fn, "-", "%s not found" % fn)
+            continue
+        k = 0
+        for _b, _i, s, x in sorted(f.nodes(True), key=lambda t: t[2].get("l", 0)):
+            if x[0] == "asg" and x[1] == "+=" and kind(strip(x[2])) == "var":
+                a = strip(x[3])
+                if kind(a) == "bin" and a[1] == "*":
+                    for cnt, sz in ((strip(a[2]), a[3]), (strip(a[3]), a[2])):
+                        if kind(cnt) == "bin" and cnt[1] == "-" and is_int(cnt[3], 1) and kind(strip(cnt[2])) == "var":
+                            k += 1
+                            sites.append((fn, k, f, s.get("l", f.line), strip(x[2])[1], _size_name(f, sz)))
+    by = {}
+    for fn, k, f, line, ptr, sz in sites:
+        by.setdefault(sz, []).append((fn, k, f, line, ptr))
+    major = max(by.items(), key=lambda kv: len(kv[1]))[0] if by else None
+    for fn, k, f, line, ptr, sz in sites:
+        key = "SKIPSIB:%s#%d" % (fn, k)
+        if sz == major:
+            ctx.holds("SKIPSIB", key, f.where(line), "`%s` skips (records - 1) x `%s` like the other copies" % (ptr, sz), nontrivial=True)
+        else:
+            ctx.violated("SKIPSIB", key, f.where(line), "`%s` skips (records - 1) x `%s`; the %d sibling copies of this re-positioning skip by `%s`" % (ptr, sz, len(by[major]), major))
+    ctx.floor("SKIPSIB", 4, len(sites), "(field-major re-positioning steps in VSread/VSwrite)")
+    return len(sites)
